@@ -725,6 +725,11 @@ fn handle(line: &str, ctxs: &mut HashMap<String, Ctx>, log: &Log) -> String {
             let Some(v) = f.get(1).and_then(|s| sexp::parse(s)).and_then(|s| sexp_to_value(&s)) else { return "BADREQ".into() };
             format!("OK\t{}", accessors(&v))
         }
+        "FLT" => {
+            // Value::float(): the bits of the returned f64, or err
+            let Some(v) = f.get(1).and_then(|s| sexp::parse(s)).and_then(|s| sexp_to_value(&s)) else { return "BADREQ".into() };
+            match v.float() { Ok(x) => format!("OK\tok:{:016x}", x.to_bits()), Err(_) => "OK\terr".into() }
+        }
         "DUMPREG" => {
             let d = verif_hooks::dump_registries();
             let inf: Vec<String> = d.infix.iter().map(|(n, p, s, r)| format!("{}:{}:{}:{}", hex(n), p, if *s { "setter" } else { "calc" }, if *r { "right" } else { "left" })).collect();
